@@ -1975,9 +1975,11 @@ func (ls *LState) Resume(th *LState, fn *LFunction, args ...LValue) (ResumeState
 		th.initCallFrame(cf)
 		th.Panic = panicWithoutTraceback
 	} else {
+		base := th.reg.Top()
 		for _, arg := range args {
 			th.Push(arg)
 		}
+		adjustYieldResults(th, base)
 	}
 	top := ls.GetTop()
 	threadRun(th)
